@@ -193,6 +193,7 @@ type built struct {
 	vals []*polyenv.Acct
 	recs map[uint32][]rec
 	tip  uint32
+	stuck bool // the ledger could not be closed/reopened any more (after a recorded violation): history abandoned
 }
 
 var tmpDirs sync.Map
@@ -267,17 +268,26 @@ func build(tag string, rvec []int, mode string, onBlock func(b *built, event str
 	restarts := func() {
 		pos := int(bt.ch.L.GetCurrentBlockHeight())
 		for i, p := range reopens {
-			if p == pos {
+			if p == pos && !bt.stuck {
 				bt.reopen()
+				if bt.stuck {
+					return
+				}
 				atomic.AddInt64(&nReopens, 1)
 				served(fmt.Sprintf("restart#%d-after-block-%d", i+1, pos))
 			}
 		}
 	}
 	restarts()
+	if bt.stuck {
+		return bt
+	}
 	commitBlock(bt.ch, setup, via(1))
 	served("after-block-1")
 	restarts()
+	if bt.stuck {
+		return bt
+	}
 	// record ids per block
 	nextID := 0
 	ids := map[uint32][]int{}
@@ -338,6 +348,9 @@ func build(tag string, rvec []int, mode string, onBlock func(b *built, event str
 		}
 		served(fmt.Sprintf("after-block-%d", h))
 		restarts()
+		if bt.stuck {
+			return bt
+		}
 	}
 	commitBlock(bt.ch, nil, via(uint32(L+2)))
 	served(fmt.Sprintf("after-block-%d", L+2))
@@ -358,10 +371,16 @@ func (b *built) close() {
 func (b *built) reopen() {
 	if _, p := ev.Guard(func() { b.ch.Close() }); p {
 		r.Class("close-panicked-on-disabled-hash-store")
+		// the state store's leveldb is still open (and locked) in this process: the directory cannot be
+		// reopened here; the disabled hash store has already been reported by the proof checks
+		b.stuck = true
+		return
 	}
 	ch, err := polyenv.OpenChain(b.ch.Dir, b.vals)
 	if err != nil {
-		r.HarnessError("reopen: %v", err)
+		r.Violation("restart/ledger-does-not-reopen", map[string]any{"chain": b.tag, "tip": b.tip, "err": err.Error()})
+		b.stuck = true
+		return
 	}
 	b.ch = ch
 }
@@ -697,8 +716,11 @@ func runChain(tag string, rvec []int, mode string, useRPC bool, reopens ...int) 
 	}, reopens)
 	defer b.close()
 	for _, phase := range []string{"live", "reopened"} {
-		if phase == "reopened" {
+		if phase == "reopened" && !b.stuck {
 			b.reopen()
+		}
+		if b.stuck {
+			break
 		}
 		var sv server = ledgerServer{ledger.VerifNewLedger(b.ch.L)}
 		if useRPC {
